@@ -311,18 +311,15 @@ def place (oldName : Option String) (kept : List (Path × Nat)) (bp : Path) :
       else (.multi (sortFiles [⟨f.1.drop bp.length, f.2⟩]), some (lastName bp))
     | _ => (.multi (sortFiles (kept.map fun f => ⟨f.1.drop bp.length, f.2⟩)), some (lastName bp))
 
-/-- `utils.filter_files(files, getter=relpath_with_parent, hidden=False, empty=False, …)`.
-    (The `empty=False` test looks for the *relative* path in the current directory; the model
-    assumes it is not found there — see notes.)  The patterns see
-    `pathlib.Path(basepath.parent, filepath)` where `basepath` is the common path of the relative
-    paths *inside* `filter_files` (for a directory with one file that is the file itself, so the
-    string is `B/B/x`). -/
+/-- `utils.filter_files(files, getter=relpath_with_parent, hidden=False, empty=True,
+    basepath=<name of the torrent's directory>)` (fix 1742c6d: `_set_files` passes the directory,
+    so patterns see `<name>/<relative path>` and the hidden test starts below the directory; empty
+    files that exist are dropped by `_set_files` itself — the content world has none). -/
 def filterFiles (s : St) (files : List (Path × Nat)) (bp : Path) : List (Path × Nat) :=
   let withParent := fun (p : Path) => p.drop (bp.length - 1)
-  let common := commonPrefix (files.map fun f => withParent f.1)
   files.filter fun f =>
     let r := withParent f.1
-    !isHidden (r.drop common.length) && !excluded s ("/".intercalate (common.dropLast ++ r))
+    !isHidden (r.drop 1) && !excluded s ("/".intercalate r)
 
 /-- `Torrent._set_files(files, basepath)` -/
 def setFilesCore (env : Env) (s : St) (files : List (Path × Nat)) (basepath : Option Path) :
@@ -617,6 +614,41 @@ def apply (env : Env) (s : St) : Op → St × Res
   | .setMax v => setMax s v
   | .generate => generate env s
   | .setComment c => ({ s with comment := c }, .ok)
+
+/-! ### two objects: `Torrent.copy()` -/
+
+/-- `Torrent.copy()`: `cp = type(self)(); cp._metainfo = deepcopy(self._metainfo)` — a **new**
+    object (its own four filter lists, empty, whose callback is its own `_filters_changed`; no
+    content path; the class-default piece size bounds) that carries over the metainfo only: name,
+    `length`/`files`, `piece length`, `pieces` (with the stamp they were computed for), comment. -/
+def copyOf (s : St) : St :=
+  { init with name := s.name, content := s.content, pl := s.pl, pieces := s.pieces,
+              comment := s.comment }
+
+/-- two `Torrent` objects a program works on; both start as `Torrent()` -/
+structure St2 where
+  a : St
+  b : St
+deriving DecidableEq, Repr, Inhabited
+
+def init2 : St2 := ⟨init, init⟩
+
+/-- an attribute operation on one of the two objects (`second = true`: on `b`), or
+    `other = this.copy()` (`fromSecond = false`: `b = a.copy()`) -/
+inductive Op2
+  | on (second : Bool) (op : Op)
+  | copy (fromSecond : Bool)
+deriving Repr, Inhabited
+
+def apply2 (env : Env) (w : St2) : Op2 → St2 × Res
+  | .on false op => ({ w with a := (apply env w.a op).1 }, (apply env w.a op).2)
+  | .on true op => ({ w with b := (apply env w.b op).1 }, (apply env w.b op).2)
+  | .copy false => ({ w with b := copyOf w.a }, .ok)
+  | .copy true => ({ w with a := copyOf w.b }, .ok)
+
+def run2 (env : Env) (w : St2) : List Op2 → St2
+  | [] => w
+  | op :: ops => run2 env (apply2 env w op).1 ops
 
 /-- a whole history; the outcome of every step is kept -/
 def run (env : Env) (s : St) : List Op → St
